@@ -1579,3 +1579,53 @@ def c05_histories(ctx):
 
 
 P.PROPS["C05"]["streams"].append(c05_histories)
+
+
+# ---------------------------------------------------------------- more C03 / C01 streams
+
+def c03_histories(ctx):
+    """nothing that is not in the source appears in the AST: a parser reused after a rejected document"""
+    bad = ["# leftover comment 1\nFeature: f\n  # leftover 2\n  Scenario: s\n    oops\n",
+           "# c\n@ bad tag\nFeature: f\n", "Feature: f\n  Scenario: s\n    Given g\n      | a |\n      | b | c |\n  # c2\n",
+           "# only comment\n  | stray row |\n"]
+    good = ["Feature: g\n  # own comment\n  Scenario: t\n    Given h\n", "# top\nFeature: h\n", "Feature: i\n\n  description\n  # in desc\n  more\n"]
+    reqs = [("parse_history", ["en", [[stop, b], [False, g]]]) for b in bad for g in good for stop in (False, True)]
+    reqs += [("parse_history", ["en", [[False, b], [False, b2], [False, g]]]) for b in bad for b2 in bad[:2] for g in good[:2]]
+
+    def proj(res, req=None):
+        return [P.p_ast_text(x) for x in res] if isinstance(res, list) else res
+    return differential("after-rejected-document", reqs, proj=proj, nontrivial=lambda q, x: canon(q[1])[:200], classify=lambda q, x: "hist", exhaustive=True)
+
+
+P.PROPS["C03"]["streams"].append(c03_histories)
+
+
+def c01_cap_boundary(ctx):
+    """the eleven-error bound at its boundary: n unexpected lines, then a line that yields two errors at once
+    (a tag with whitespace where no tag line fits), then more"""
+    srcs = []
+    for n in range(7, 13):
+        for two in ("@smoke test", "  @a b @c"):
+            for tail in ("", "| x |\n", "Feature: late\n", "@ok\n"):
+                for pre in ("Feature: f\n  Scenario: s\n    Given g\n      | a |\n", "Feature: f\n"):
+                    body = "".join("      oops %d\n" % i if pre.endswith("|\n") else "| r%d |\n" % i for i in range(n))
+                    srcs.append(pre + body + two + "\n" + tail)
+    return e2e("error-cap-boundary", srcs, P.p_c01, modes=(False, True), nontrivial=nt_rejected, exhaustive=True)
+
+
+def c01_compile(ctx):
+    """Compiler.compile is total on parser-shaped documents: header cells with regex metacharacters that are used as placeholders"""
+    heads = ["price (EUR", "EUR)", "range [0", "a**", "(?i", "a.b", "x|y", "$", "\\\\d", "ok"]
+    srcs = []
+    for h in heads:
+        srcs.append("Feature: f\n  Scenario Outline: uses <%s>\n    Given step <%s> here\n      | <%s> |\n    And doc\n      \"\"\"<%s>\n      <%s>\n      \"\"\"\n    Examples:\n      | %s | other |\n      | v1 | v2 |\n" % (h, h, h, h, h, h.replace("|", "\\|")))
+    reqs = [("events", [False, False, True, [["u", s]]]) for s in srcs]
+
+    def proj(r, req=None):
+        if "envelopes" not in r:
+            return {"outcome": P.outcome(r), "type": r.get("foreign")}
+        return {"kinds": [list(e)[0] for e in r["envelopes"]], "names": [e["pickle"]["name"] for e in r["envelopes"] if "pickle" in e]}
+    return differential("compile-with-metachar-headers", reqs, proj=proj, nontrivial=lambda q, x: q[1][3][0][1], classify=lambda q, x: P.outcome(x) if "envelopes" not in x else "ok", exhaustive=True)
+
+
+P.PROPS["C01"]["streams"] = P.PROPS["C01"]["streams"][:2] + [c01_cap_boundary, c01_compile] + P.PROPS["C01"]["streams"][2:]
